@@ -120,12 +120,26 @@ func (m *Message) readHeader(r io.Reader, buf *bytes.Buffer) (cmd *dict.Command,
 func (m *Message) readBody(r io.Reader, buf *bytes.Buffer, cmd *dict.Command, stream uint) error {
 	var err error
 	var n int
-	b := readerBufferSlice(buf, int(m.Header.MessageLength-HeaderLength))
+	var b []byte
+	l := int(m.Header.MessageLength - HeaderLength)
 	msr, isMulti := r.(MultistreamReader)
 	if isMulti {
+		b = readerBufferSlice(buf, l)
 		n, _, err = msr.ReadAtLeast(b, len(b), stream)
-	} else {
+	} else if l <= MessageBufferLength {
+		b = readerBufferSlice(buf, l)
 		n, err = io.ReadFull(r, b)
+	} else {
+		// Do not allocate what the header merely claims (up to 16 MiB):
+		// let the buffer grow with the bytes that actually arrive.
+		var bb bytes.Buffer
+		var n64 int64
+		n64, err = io.CopyN(&bb, r, int64(l))
+		n = int(n64)
+		if err == io.EOF && n > 0 {
+			err = io.ErrUnexpectedEOF
+		}
+		b = bb.Bytes()
 	}
 	if err != nil {
 		return fmt.Errorf("readBody Error: %v, %d bytes read", err, n)
